@@ -429,7 +429,7 @@ fn number_strings(rng: &mut Rng, n: usize) -> Vec<String> {
 }
 
 pub fn gen(rng: &mut Rng, tier: &str) -> Vec<Line> {
-  let n: usize = if tier == "thorough" { 1_000_000 } else { 14_000 };
+  let n: usize = if tier == "thorough" { 800_000 } else { 14_000 };
   let mut v = Vec::new();
   for s in sat_strings(rng, n) {
     v.push(sat_case(&s));
